@@ -62,7 +62,14 @@ func AtTip() {
 		if answered < 0 {
 			return false
 		}
-		sym.Assert(outstanding >= 1, "a syncing client always has a request outstanding")
+		if sym.Symbolic() {
+			// (under the executor the server only looks when the client is blocked; natively it
+			// may look while the client is still about to send)
+			sym.Assert(outstanding >= 1, "a syncing client always has a request outstanding")
+		} else if outstanding == 0 {
+			turns--
+			return false // nothing to answer yet
+		}
 		if !awaited && sym.Bool("await_first_"+string(rune('a'+turns))) {
 			awaited = true // the client is at the tip: AwaitReply, the request stays outstanding
 			inbox <- chainsync.NewMsgAwaitReply()
